@@ -1433,12 +1433,23 @@ impl<'a, 'b, W: Write> Serializer for &'a mut YamlSerializer<'b, W> {
             // instead of:
             // -
             //   - 1
-            let inline_first = (!self.at_line_start)
+            let nested_after_dash = (!self.at_line_start)
                 && self.after_dash_depth.is_some()
                 && !self.pending_space_after_colon;
+            // The inner dashes that follow are written at a multiple of the indentation step,
+            // the inlined first one two columns after the outer dash: the two only coincide for
+            // a step of 2. With another step the nested sequence starts on its own line.
+            let own_line = nested_after_dash && self.indent_step != 2 && _len != Some(0);
+            let inline_first = nested_after_dash && !own_line;
             // If we are a mapping value (space after colon was pending), we will handle
             // the newline later in SeqSer::serialize_element to keep empty sequences inline.
             self.write_anchor_for_complex_node()?;
+            if own_line {
+                if !self.at_line_start {
+                    self.newline()?;
+                }
+                self.pending_inline_map = false;
+            }
             if inline_first {
                 // Keep staged inline (pending_inline_map) so the child can inline its first dash.
                 // Ensure we stay mid-line so the child can emit its first dash inline.
@@ -1453,7 +1464,7 @@ impl<'a, 'b, W: Write> Serializer for &'a mut YamlSerializer<'b, W> {
             // - After a list dash inline_first: base is dash depth; indent one level deeper.
             // - As a value after a map key: base is current_map_depth (if set), indent one level deeper.
             // - Otherwise (top-level or already at line start): base is current depth.
-            let base = if inline_first {
+            let base = if inline_first || own_line {
                 self.after_dash_depth.unwrap_or(self.depth)
             } else if was_inline_value && self.current_map_depth.is_some() {
                 self.current_map_depth.unwrap_or(self.depth)
@@ -1463,7 +1474,7 @@ impl<'a, 'b, W: Write> Serializer for &'a mut YamlSerializer<'b, W> {
             // For sequences used as a mapping value, indent them one level deeper so the dash is
             // nested under the parent key (consistent with serde_yaml's formatting). Keep block
             // sequences inline only when they immediately follow another dash.
-            let depth_next = if inline_first {
+            let depth_next = if inline_first || own_line {
                 base + 1
             } else if was_inline_value {
                 if self.compact_list_indent && self.current_map_depth.is_some() {
